@@ -495,6 +495,40 @@ def run(ctx):
             events.append({"kind": "sync", "d": 0, "idx": -1, "samestart": False, "raised": raised, "short": True})
             meta.append(("sync-short", order, sps, "", 0))
             ctx.case(("sync-short", order), None, nontrivial=False)
+    # the same slot pattern located at one number of samples per slot, then at another, then at the first again (both call styles):
+    # each call stands on its own arguments / the configuration in force
+    from opticomlib.typing import binary_sequence as _bs2
+    for w_i, word in enumerate(["1110010110000100", "1111100110101"]):
+        slots = _bs2(word)
+        for j_, sps in enumerate([4, 8, 4, 2, 8]):
+            tx = np.kron(slots.data, np.ones(sps))
+            l = tx.size
+            d = [5, 37 % l, l - 1, 3, 0][j_]
+            np.random.seed(900 + j_)
+            rx = np.roll(np.tile(tx, 3), d).astype(float) + 0.05 * np.random.randn(3 * l)
+            raised, idx, same = "none", -1, False
+            try:
+                with deadline(60):
+                    if w_i:
+                        gv(sps=sps, R=1e9)
+                        out, idx = lab.SYNC(electrical_signal(rx), slots)
+                    else:
+                        out, idx = lab.SYNC(rx, slots.data, sps)
+                idx = int(idx)
+                same = bool(out.len() > 0 and np.array_equal(out.signal[:16], rx[d:d + 16]))
+            except Exception as e:
+                raised = type(e).__name__
+            events.append({"kind": "sync", "d": int(d), "idx": idx, "samestart": same, "raised": raised, "short": False})
+            meta.append(("sync-same-pattern-other-sps", w_i, sps, "d=0" if d == 0 else "d>0", 0.05))
+            # a record shorter than the pattern AT THIS sps is rejected (it would have been long enough at the previous one)
+            try:
+                lab.SYNC(rx[:l - 1], slots.data, sps)
+                raised = "none"
+            except Exception as e:
+                raised = type(e).__name__
+            events.append({"kind": "sync", "d": 0, "idx": -1, "samestart": False, "raised": raised, "short": True})
+            meta.append(("sync-short", w_i, sps, "", 0))
+            ctx.case(("sync-other-sps", w_i, sps))
     gv.clean()
     validate(ctx, events, meta, 1024, 2 ** 21, "SYNC")
 
